@@ -64,6 +64,10 @@ ViewFn(op, k, a) ==
     [] op = "swap_elements" /\ tg \in {<<"Vec","I","I">>, <<"Pt","I","I">>} ->
          IF InRange(Sc(a, 2), Len(a[1].c)) /\ InRange(Sc(a, 3), Len(a[1].c))
          THEN V(tg[1], Swap(a[1].c, Sc(a, 2) + 1, Sc(a, 3) + 1)) ELSE PanicV
+    [] op = "mat_ptr_read" /\ tg = <<"Mat">> -> TupS(Canon(a[1]))                               \* Matrix::as_ptr: column-major
+    [] op = "mat_ptr_write" /\ tg = <<"Mat","I","S">> ->
+         IF InRange(Sc(a, 2), Len(Canon(a[1]))) THEN FromCanon("Mat", [Canon(a[1]) EXCEPT ![Sc(a, 2) + 1] = Sc(a, 3)]) ELSE PanicV
+    [] op = "bounded" /\ tg = <<"T">> -> Bv(TRUE)                                                \* Bounded is component-wise
     [] op = "map" /\ tg \in {<<"Vec","S">>, <<"Pt","S">>} -> MapC(a[1], LAMBDA x : RAdd(RAdd(x, x), Sc(a, 2)))
     [] op = "zip" /\ tg \in {<<"Vec","Vec">>, <<"Pt","Pt">>} -> ZipC(a[1], a[2], LAMBDA p, q : RAdd(RAdd(p, p), q))
     \* swizzle(X, word, i1, .., ik): the word must spell the letters of the indices, the result holds exactly those components
@@ -150,7 +154,7 @@ SerdeRel(op, a, r) ==
 \* Integer projections of floating-point results (computed by the recorder in f64 from the native values).
 \* The model knows the exact rational inputs, so it knows which side of each threshold they are on.
 IsIntTup(x, n) == x.t = "Tup" /\ Len(x.c) = n
-ProjOps == {"slerp_proj", "nlerp_proj", "slerp_axis_proj", "unit_roundtrip", "normalize_native", "turn_div_exact", "full_turn_value", "euler_proj"}
+ProjOps == {"slerp_proj", "nlerp_proj", "slerp_axis_proj", "look_proj", "unit_roundtrip", "normalize_native", "turn_div_exact", "full_turn_value", "euler_proj"}
 ProjRel(op, k, a, r) ==
   LET wide == k = "f32" IN
   CASE op \in {"slerp_proj", "nlerp_proj"} ->
@@ -166,6 +170,24 @@ ProjRel(op, k, a, r) ==
     \* recorder knows exactly; the arc is a quarter of the 3-sphere's great circle, far from the hand-over, so speed is exact
     [] op = "slerp_axis_proj" -> /\ IsIntTup(r, 4) /\ r.c[1].c[1] <= 8 /\ r.c[4].c[1] = TRUE
                                  /\ r.c[2].c[1] <= (IF wide THEN 5000 ELSE 50)
+    \* C09 in general position.  a = <<T inner op, T form, arguments..>>; r = <<orthonormality, det sign, dir off the z axis,
+    \* dir z sign, up off the plane x = 0, up y sign, eye off the origin>> in machine epsilons / signs.  The handedness the
+    \* model expects: Rotation::look_at and *_lh are left-handed (dir to +z), *_rh right-handed, deprecated Matrix4 aliases
+    \* right-handed, deprecated Matrix3::look_at left-handed, the deprecated Transform::look_at either.
+    [] op = "look_proj" ->
+         LET inner == Sc(a, 1)  fm == Sc(a, 2)  ty == IF a[3].t = "T" THEN Sc(a, 3) ELSE ""
+             hands == CASE inner = "mat3_look_to" -> (IF fm = "rh" THEN {-1} ELSE {1})
+                        [] inner \in {"mat4_look_to", "mat4_look_at"} -> (IF fm = "lh" THEN {1} ELSE {-1})
+                        [] inner = "rot_look_at" -> {1}
+                        [] inner = "tf_look_at" /\ ty = "Matrix4" -> (IF fm = "lh" THEN {1} ELSE {-1})
+                        [] inner = "tf_look_at" -> (IF fm = "lh" THEN {1} ELSE IF fm = "rh" THEN {-1} ELSE {1, -1})
+                        [] OTHER -> {}
+             tol == IF wide THEN 4096 ELSE 1024 IN
+         /\ IsIntTup(r, 7)
+         /\ r.c[1].c[1] <= tol /\ r.c[2].c[1] = 1                 \* orthonormal, determinant +1
+         /\ r.c[3].c[1] <= tol /\ r.c[4].c[1] \in hands            \* dir onto the z axis, with the documented sign
+         /\ r.c[5].c[1] <= tol /\ r.c[6].c[1] = 1                 \* up into the half-plane x = 0, y >= 0
+         /\ r.c[7].c[1] <= 4 * tol                                \* the eye goes to the origin (Matrix4, Decomposed)
     [] op = "unit_roundtrip" -> r.t = "I" /\ r.c[1] <= 4       \* relative error at most 4 machine epsilons   (C13)
     [] op = "normalize_native" -> /\ IsIntTup(r, 4) /\ r.c[1].c[1] = TRUE /\ r.c[2].c[1] = TRUE
                                   /\ r.c[3].c[1] <= (IF wide THEN 20000 ELSE 10) /\ r.c[4].c[1] <= (IF wide THEN 20000 ELSE 10)
